@@ -9,4 +9,10 @@ rsync -a --exclude .git --exclude docs --exclude '__pycache__' /repo/ "$SCRATCH/
 ( cd "$SCRATCH" && patch -p1 -s < /verif/seeded/$NAME/patch.diff ) || { echo "PATCH-FAILED"; exit 3; }
 cd /verif
 JSL_REPO="$SCRATCH" VERIF_OUT="$SCRATCH/out" ./check "$ID" "$TIER" 2>&1 | grep -v WARNING | tail -3 | cut -c1-400
-echo "seeded=$NAME check=$ID exit=${PIPESTATUS[0]}"
+RC=${PIPESTATUS[0]}
+# keep the (shrunk) failing case as a regression input for this property
+if [ "$RC" = "1" ] && [ -n "${SAVE_REPLAY:-}" ]; then
+  F=$(ls "$SCRATCH"/out/failures/$ID/*.json 2>/dev/null | head -1)
+  if [ -n "$F" ]; then mkdir -p /verif/replays/$ID; cp "$F" /verif/replays/$ID/seeded-$NAME.json; fi
+fi
+echo "seeded=$NAME check=$ID exit=$RC"
